@@ -196,6 +196,52 @@ def plan_C02(ctx):
               "truth value iff LOGIC, value deeply compatible with the reported typification.")
 
 
+# ----------------------------------------------------------------------------- C04
+def plan_C04(ctx):
+    b = vcore.build()
+    bs = vcore.build(san=True)
+    h, hs = hbin(b, "h_input"), hbin(bs, "h_input")
+    ctx.rule = ("A: every sequence of <= MaxSeq atoms over the lexical alphabet Sigma (all tokens of both syntaxes, identifiers of "
+                "every constituent kind, in- and out-of-range literals, 14 junk byte atoms), every one-token edit (delete, replace, "
+                "insert, duplicate, transpose) of valid renderings of Gen_Syntax trees, and every single-field damage of a schema "
+                "document; each spelled in MATH and ASCII, spaced and tight, under hints MATH / ASCII / auto, through Parser::Parse, "
+                "Auditor::CheckExpression/CheckValue, Interpreter::Evaluate, api::ParseExpression, RSFormJA::CheckExpression/"
+                "CheckConstituenta/FromJSON/ToJSON, ConvertTo, pyconcept's seven wrappers, Reference::Parse/ExtractAll, "
+                "RefsManager::Resolve, SubstituteGlobals, in an ASan+UBSan build in forked batches. "
+                "non-trivial = >= 2 atoms; distinct = distinct atom sequence. B: one event per call recorded and checked by TLC (Post).")
+    ctx.assumptions = ["termination / memory safety are observed (watchdog, sanitizers) on model-generated inputs, not proved",
+                       "for the JSON analyses success means parseResult and valueClass != invalid; positions of CheckConstituenta are relative to '<alias>:==<definition>' (prefixLen)"]
+    cfgs = ["Gen_C04_q.cfg", "Gen_C04_q2.cfg"] if ctx.quick else ["Gen_C04_t.cfg"]
+    ctx.constants = {c: open(os.path.join(vcore.TLA, c)).read().split("SPECIFICATION")[0].split() for c in cfgs}
+    ctx.constants["asan"] = "every 6th case (by hash) in quick, all cases in thorough"
+    for c in cfgs:
+        # all cases in the optimised build (faults, Post), and the sanitizer build on a hash-sample (quick) / on everything (thorough)
+        ctx.replay("Gen_C04.tla", c, h, tag=c[:-4], timeout=3400, xss="64m")
+        ctx.replay("Gen_C04.tla", c, hs, ["--sample", "6"] if ctx.quick else [], tag="asan-" + c[:-4], timeout=3400, xss="64m")
+    ctx.exhaustive = True
+    src = ctx.path("c04-cases.txt")
+    ctx.generate("Gen_C04.tla", "Gen_C04_q2.cfg", src, every=(40 if ctx.quick else 8))
+    trace_stage(ctx, h, ["--record", "100000", "--in", src], "Trace_C04.tla", "Trace_C04.cfg")
+
+
+# ----------------------------------------------------------------------------- C18
+def plan_C18(ctx):
+    b = vcore.build()
+    h = hbin(b, "h_reuse")
+    ctx.rule = ("A: every sequence of <= MaxLen inputs from the pool of 40 state-leaving inputs of Gen_C18 (function definitions, "
+                "multi-line MATH text, failures in lexer / parser / checker inside nested scopes / evaluator, iteration limit, long "
+                "evaluations, global declarations, calls, both syntaxes) fed to one Parser, one Auditor, one Interpreter and through "
+                "the shared static generators; after the last input every observable (verdict, errors with positions and parameters, "
+                "tree with ranges, AST text, generated text in both syntaxes, type, declared arguments, value class, value, iteration "
+                "count) is compared with freshly constructed objects. non-trivial = sequence of >= 2 inputs.")
+    ctx.assumptions = ["the specification of a reused analyser is statelessness (out[k] = F(in[k], ctx)); the oracle for F is a fresh instance of the same code",
+                       "iteration counts are compared for successful evaluations only (as the statement says)"]
+    cfg = "Gen_C18_q.cfg" if ctx.quick else "Gen_C18_t.cfg"
+    ctx.constants = {"MaxLen": 3 if ctx.quick else 4, "pool": 40}
+    ctx.replay("Gen_C18.tla", cfg, h, timeout=3000)
+    ctx.exhaustive = True
+
+
 def save_trace(ctx, trace, prefix, tag=""):
     """keep the prefix of a rejected trace (up to and including the offending event) as the replay artefact"""
     d = os.path.join(vcore.BUILD, "replays")
@@ -215,14 +261,15 @@ PLANS = {
     "C16": plan_C16,
     "C15": plan_C15,
     "C17": plan_C17,
+    "C04": plan_C04, "C18": plan_C18,
     "C01": plan_C01, "C02": plan_C02, "C03": plan_C03, "C05": plan_C05, "C06": plan_C06,
 }
 
-HARNESS_OF = {"C14": "h_graph", "C20": "h_strings", "C16": "h_sdcompact", "C15": "h_values", "C17": "h_refs",
+HARNESS_OF = {"C14": "h_graph", "C20": "h_strings", "C16": "h_sdcompact", "C15": "h_values", "C17": "h_refs", "C04": "h_input", "C18": "h_reuse",
               "C01": "h_lang", "C02": "h_lang", "C03": "h_lang", "C05": "h_lang", "C06": "h_lang"}
 TRACE_SPEC_OF = {"C14": ("Trace_C14.tla", "Trace_C14.cfg"), "C20": ("Trace_C20.tla", "Trace_C20.cfg"),
                  "C16": ("Trace_C16.tla", "Trace_C16.cfg"), "C15": ("Trace_C15.tla", "Trace_C15.cfg"),
-                 "C17": ("Trace_C17.tla", "Trace_C17.cfg")}
+                 "C17": ("Trace_C17.tla", "Trace_C17.cfg"), "C04": ("Trace_C04.tla", "Trace_C04.cfg")}
 
 
 def replay(pid, path):
